@@ -466,7 +466,8 @@ def main(tier, seed, only=None):
     )
     run.assumptions = ["encoding + cspuz z3 backend under test; native graph-division via R-native (mc/native_backend.py)"]
     shards = gcheck.split_shards(cases, size_of, 120)
-    par.run_shards(run, worker, shards, seed)
+    first, rest = gcheck.heavy_first(shards, _CASES)
+    par.run_shards(run, worker, rest, seed, first=first)
     cov = {
         "evaluations": run.c("evaluations"),
         "distinct_nontrivial": sum(_BELL[g[0]] for g in run.total.sets.get("plain_graphs", ())) + sum(1 << len(g[1]) for g in run.total.sets.get("border_graphs", ())),
